@@ -220,8 +220,11 @@ def random_schema(rng, depth=0, used=None, allow_map=True):
         elif r < 0.95 and allow_map:
             kk = ('U', fresh_typ(), None) if rng.random() < 0.5 else ('Y', fresh_typ(), True)
             vr = rng.random()
-            if vr < 0.4:
+            if vr < 0.35:
                 vv = ('U', fresh_typ(), None)
+            elif vr < 0.5 and 7 not in used:
+                used.add(7)           # a NameField value: the one field kind whose parse_from reads from offset_btl
+                vv = ('N', 7)
             elif vr < 0.8 or depth >= 3:
                 vv = ('Y', fresh_typ(), False)
             else:
